@@ -213,12 +213,50 @@ def switches_on_result_of(fn, call_site, through=()):
 
 TRY_BRANCH = (r'core::ops::try_trait::Try>::branch$', r'core::ops::try_trait::Try::branch$')
 
+_TESTS = {'is_ok': ('Ok', 'Err'), 'is_err': ('Err', 'Ok'), 'is_some': ('Some', 'None'), 'is_none': ('None', 'Some')}
+
+
+def result_test_switches(fn, call_site):
+    """Boolean switches that test the result of call_site through `.is_ok()` / `.is_err()` / `.is_some()` / `.is_none()` (possibly
+    negated, possibly bound to a named local first).  Returns [(block, {label: target})] in the vocabulary of a match on the result:
+    `if r.is_err() { return }` is the same decision as `match r { Err(_) => return, Ok(_) => .. }`."""
+    out = []
+    for b in range(len(fn.blocks)):
+        t = fn.blocks[b]['t']
+        if t[0] != 'switch':
+            continue
+        arms = bool_switch_arms(fn, b)
+        if arms is None:
+            continue
+        tt, ff = arms
+        p = fn.prov_operand(t[1])
+        neg = False
+        hops = 0
+        while p.root[0] == 'expr' and p.root[1][0] == 'un' and p.root[1][1] == 'Not' and hops < 3:
+            p = fn.prov_operand(p.root[1][2])
+            neg = not neg
+            hops += 1
+        if p.root[0] != 'call' or p.path:
+            continue
+        m = re.search(r'(?:Result|Option)(?:::<.*>)?::(is_ok|is_err|is_some|is_none)$', p.root[1].callee or '')
+        if not m or not p.root[1].args:
+            continue
+        q = fn.prov_operand(p.root[1].args[0])
+        if q.root[0] != 'call' or q.root[1].key() != call_site.key() or [x for x in q.path if x != '*']:
+            continue
+        yes, no = _TESTS[m.group(1)]
+        if neg:
+            yes, no = no, yes
+        out.append((b, {yes: tt, no: ff}))
+    return out
+
 
 def only_under(R, fn, F, sites, call_site, labels, key, why='', through=TRY_BRANCH):
     """ONLY-UNDER: every site lies under an arm (with a label in `labels`) of a switch on the result of call_site."""
     k = 'ONLY-UNDER::%s::%s' % (fnkey(fn), key)
     sw = switches_on_result_of(fn, call_site, through)
-    if not sw:
+    bt = result_test_switches(fn, call_site)
+    if not sw and not bt:
         R.ob('ONLY-UNDER', k, False, 'anchor-missing: no switch on the result of %s; %s' % (desc(call_site), why), call_site.where, fn)
         return False
     if not sites:
@@ -231,9 +269,96 @@ def only_under(R, fn, F, sites, call_site, labels, key, why='', through=TRY_BRAN
             for lab, tgt in arm_blocks(fn, b, lambda l: l in labels, F):
                 if fn.edge_dominates(b, tgt, s.b):
                     ok = True
+        for b, arms in bt:
+            for lab, tgt in arms.items():
+                if lab in labels and arms.get(lab) != [v for l_, v in arms.items() if l_ != lab][0] and fn.edge_dominates(b, tgt, s.b):
+                    ok = True
         allok &= ok
         R.ob('ONLY-UNDER', k, ok, '%s must lie under arm %s of the match on %s; %s' % (desc(s), '|'.join(labels), desc(call_site), why), s.where, fn)
     return allok
+
+
+def under_arm(fn, F, site, call_site, labels, through=TRY_BRANCH):
+    """`site` lies under an arm (label in `labels`) of a decision on the result of call_site, whatever the spelling of the decision:
+    match / if-let / `?` (labels Continue|Break) / .is_ok() / .is_err() / .is_some() / .is_none(), negated or bound to a local."""
+    for b in switches_on_result_of(fn, call_site, through):
+        for lab, tgt in arm_blocks(fn, b, lambda l: l in labels, F):
+            if fn.edge_dominates(b, tgt, site.b):
+                return True
+    for b, arms in result_test_switches(fn, call_site):
+        tg = set(arms.values())
+        if len(tg) < 2:
+            continue
+        for lab, tgt in arms.items():
+            if lab in labels and fn.edge_dominates(b, tgt, site.b):
+                return True
+    return False
+
+
+def arm_edges(fn, F, call_site, labels, through=TRY_BRANCH):
+    """CFG edges (switch block, target) taken when the result of call_site is one of `labels`, for every spelling of the decision."""
+    out = []
+    for b in switches_on_result_of(fn, call_site, through):
+        for lab, tgt in arm_blocks(fn, b, lambda l: l in labels, F):
+            out.append((b, tgt))
+    for b, arms in result_test_switches(fn, call_site):
+        if len(set(arms.values())) < 2:
+            continue
+        for lab, tgt in arms.items():
+            if lab in labels:
+                out.append((b, tgt))
+    return out
+
+
+def returns_success_of(fn, F, call_site):
+    """The function's boolean return value is exactly `the result of call_site is Ok`: `r.is_ok()`, `!r.is_err()`, or
+    `match r { Ok(_) => true, Err(_) => false }`.  Returns (verdict, description); verdict None = shape not recognised."""
+    defs = fn.defs.get(0, [])
+    if not defs:
+        return None, 'no assignment to the return place'
+    seen = []
+    for kind, site in defs:
+        if kind == 'call':
+            m = re.search(r'Result(?:::<.*>)?::(is_ok|is_err)$', site.callee or '')
+            q = fn.prov_operand(site.args[0]) if site.args else None
+            if not m or q is None or q.root[0] != 'call' or q.root[1].key() != call_site.key():
+                return None, 'return value produced by %s' % desc(site)
+            if m.group(1) == 'is_err':
+                return False, 'returns is_err() of the exchange'
+            seen.append('is_ok()')
+            continue
+        rv = site.node[2]
+        if rv[0] == 'use' and rv[1][0] == 'k':
+            v = rv[1][3]
+            if v in (1, True):
+                if not under_arm(fn, F, site, call_site, ('Ok',)):
+                    return False, '`true` returned outside the Ok arm'
+                seen.append('true@Ok')
+            elif v in (0, False):
+                if not under_arm(fn, F, site, call_site, ('Err',)):
+                    return False, '`false` returned outside the Err arm'
+                seen.append('false@Err')
+            else:
+                return None, 'constant %r returned' % (v,)
+            continue
+        p = fn.prov_place([0]) if len(defs) == 1 else None
+        if rv[0] == 'un' and rv[1] == 'Not':
+            q = fn.prov_operand(rv[2])
+            if q.root[0] == 'call' and re.search(r'Result(?:::<.*>)?::is_err$', q.root[1].callee or ''):
+                r = fn.prov_operand(q.root[1].args[0])
+                if r.root[0] == 'call' and r.root[1].key() == call_site.key():
+                    seen.append('!is_err()')
+                    continue
+            return None, 'negation of something else'
+        if rv[0] == 'use':
+            q = fn.prov_operand(rv[1])
+            if q.root[0] == 'call' and re.search(r'Result(?:::<.*>)?::is_ok$', q.root[1].callee or '') and not q.path:
+                r = fn.prov_operand(q.root[1].args[0])
+                if r.root[0] == 'call' and r.root[1].key() == call_site.key():
+                    seen.append('is_ok() via local')
+                    continue
+        return None, 'return value assigned by an unrecognised expression'
+    return True, ', '.join(seen)
 
 
 def bool_switch_arms(fn, b):
@@ -459,6 +584,12 @@ def origins(fn, op_or_place, depth=8, _seen=None):
             _seen.add(k)
             for a in s.args:
                 out |= origins(fn, a, depth - 1, _seen)
+    elif r[0] in ('expr', 'agg'):
+        k = ('E', id(r[1]))
+        if k not in _seen:
+            _seen.add(k)
+            for o in _operands(r[1]):
+                out |= origins(fn, o, depth - 1, _seen)
     elif r[0] in ('var', 'multi', 'local'):
         local = r[2] if r[0] == 'var' else r[1]
         if ('L', local) not in _seen:
@@ -477,9 +608,38 @@ def origins(fn, op_or_place, depth=8, _seen=None):
                         out |= origins(fn, rv[2], depth - 1, _seen)
                     elif rv[0] == 'cast':
                         out |= origins(fn, rv[2], depth - 1, _seen)
+                    else:
+                        for o in _operands(rv):
+                            out |= origins(fn, o, depth - 1, _seen)
             if 1 <= local <= fn.nargs:
                 out.add('arg:%d' % local)
     return out
+
+
+def _operands(node):
+    """All place operands (`['c'|'m', place]`) read by an rvalue (structural walk over the JSON fact)."""
+    out = []
+
+    def walk(x):
+        if isinstance(x, list):
+            if len(x) == 2 and x[0] in ('c', 'm') and isinstance(x[1], list) and x[1] and isinstance(x[1][0], int):
+                out.append(x)
+                return
+            for y in x:
+                walk(y)
+    walk(node)
+    return out
+
+
+def has_origin(fn, operand, callee_pat=None, param=None):
+    """Value derives from a call matching callee_pat and/or from the parameter (name, position) -- decided on provenance."""
+    o = origins(fn, operand)
+    ok = True
+    if callee_pat is not None:
+        ok = ok and any(re.search(callee_pat, x) for x in o if not x.startswith(('arg:', 'field:')))
+    if param is not None:
+        ok = ok and ('arg:%d' % param_index(fn, param[0], param[1])) in o
+    return ok
 
 
 def _operand_locals(node):
@@ -795,7 +955,7 @@ def normalize_cond(c, holds=True):
     return c if holds else '!' + c
 
 
-def path_conds(fn, site, F=None):
+def path_conds(fn, site, F=None, _depth=0):
     """Normalised conditions (see normalize_cond) that hold on EVERY path to `site`, nearest first.  Boolean switches contribute the
     condition with its polarity; switches on an enum discriminant contribute `<scrutinee> is <Variant>` when F is given."""
     out = []
@@ -814,6 +974,22 @@ def path_conds(fn, site, F=None):
         tt, ff = arms
         if tt == ff:
             continue
+        if c.startswith('phi:') and tgt == tt and _depth < 4:
+            # a named / merged boolean (`let both = a && b; if both {..}`): it is true only through the one definition that is not
+            # the constant `false`; what guards that definition, and the value assigned there, hold as well
+            l = _root_local(fn, t[1])
+            cands = []
+            for kind, ds in (fn.defs.get(l, []) if l is not None else []):
+                if kind == 'assign' and ds.node[2][0] == 'use' and ds.node[2][1][0] == 'k' and ds.node[2][1][3] in (0, False):
+                    continue
+                cands.append((kind, ds))
+            if len(cands) == 1 and len(fn.defs.get(l, [])) >= 2:
+                kind, ds = cands[0]
+                rv = ds.node[2] if kind == 'assign' else None
+                if not (rv is not None and rv[0] == 'use' and rv[1][0] == 'k'):
+                    out.append(normalize_cond(core.sym_nstr(core.sym_def(fn, kind, ds)), holds=True))
+                out.extend(path_conds(fn, ds, F, _depth + 1))
+                continue
         out.append(normalize_cond(c, holds=(tgt == tt)))
     return out
 
@@ -897,3 +1073,32 @@ def bool_truth_table(fn, nparams=None, skip_first=True):
         except KeyError:
             return None
     return table
+
+
+def param_index(fn, name, idx):
+    """Position of the parameter a rule is about: by its name when a parameter of that name exists,
+    otherwise by the position it had when the rule was written (robust to a rename)."""
+    for i in range(1, fn.nargs + 1):
+        if fn.local_name(i) == name:
+            return i
+    return idx
+
+
+def param_is(fn, operand, name, idx, path=()):
+    """Operand is (a copy / reborrow of) the parameter `name` (position idx), optionally projected by `path`.
+    Decided by provenance, never by the spelling of the parameter."""
+    want = param_index(fn, name, idx)
+    p = fn.prov_operand(operand)
+    return p.root[0] == 'arg' and p.root[1] == want and tuple(q for q in p.path if q != '*') == tuple(path)
+
+
+def param_calls(fn, name, idx):
+    """Call sites that invoke the closure parameter `name` (position idx)."""
+    want = param_index(fn, name, idx)
+    out = []
+    for s in fn.sites:
+        if s.is_call and re.search(r'Fn(Mut|Once)?(<.*>)?>?::call(_mut|_once)?$', s.callee or ''):
+            p = fn.prov_operand(s.args[0])
+            if p.root[0] == 'arg' and p.root[1] == want:
+                out.append(s)
+    return out
